@@ -174,6 +174,21 @@ func c06Collect(s prometheus.Summary) c06Write {
 func c06RunImpl(o c06Opts, t0 int64, ops []c06Op) (string, int, []c06Write) {
 	clk := &c06Clock{ns: t0}
 	s, kind := c06New(o, clk)
+	if kind == 3 { // summary without objectives: count and sum of every collection
+		var t []string
+		for _, op := range ops {
+			switch op.kind {
+			case 0:
+				s.Observe(op.v)
+			case 1:
+				atomic.AddInt64(&clk.ns, op.dt)
+			default:
+				x := c06Collect(s)
+				t = append(t, emit.Tup(emit.U(x.count), emit.F(x.sum), emit.I(len(x.qs))))
+			}
+		}
+		return emit.C(3, emit.L(t)), kind, nil
+	}
 	if kind != 4 {
 		return emit.C(0, emit.I(kind)), kind, nil
 	}
@@ -555,6 +570,47 @@ func runC06(c *cli.Ctx) error {
 			ops = append(ops, c06Op{kind: 2})
 		}
 		c06Emit(w, o, t0, ops, fmt.Sprintf("buckets:%d", n), "clock:jumps-across-hundreds-of-buckets")
+	}
+	if err := w.Flush(); err != nil {
+		return err
+	}
+
+	// ---- stream noobj: summaries WITHOUT objectives (nil / empty map; directly and as a vec child) collected
+	// 3-6 times, with and without observations between the collections, non-zero sums ----
+	w = emit.NewWriter(c.Out, "C06", "noobj")
+	for i := 0; i < 60*c.Scale; i++ {
+		o, _ := c06Config(r)
+		o.objs = nil
+		if r.Chance(1, 2) {
+			o.objs = [][2]float64{}
+		}
+		tag := "direct"
+		if r.Chance(1, 2) {
+			o.vars, o.values, tag = []string{"a"}, []string{"x"}, "vec-child"
+		}
+		var ops []c06Op
+		ncoll := 3 + r.Intn(4)
+		for j := 0; j < ncoll; j++ {
+			nobs := r.Intn(4)
+			if j == 0 {
+				nobs = 1 + r.Intn(3) // a non-zero sum before the first collection
+			}
+			if r.Chance(1, 3) {
+				nobs = 0 // collections back to back
+			}
+			for q := 0; q < nobs; q++ {
+				v := float64(1+r.Intn(1000)) / 8
+				if r.Chance(1, 6) {
+					v = math.Exp(r.Float01() * 20)
+				}
+				ops = append(ops, c06Op{kind: 0, v: v})
+			}
+			if r.Chance(1, 4) {
+				ops = append(ops, c06Op{kind: 1, dt: int64(r.Intn(1000))})
+			}
+			ops = append(ops, c06Op{kind: 2})
+		}
+		c06Emit(w, o, c06T0(r), ops, "no-objectives", tag, fmt.Sprintf("collections:%d", ncoll))
 	}
 	if err := w.Flush(); err != nil {
 		return err
